@@ -25,8 +25,8 @@ ASSUMPTIONS = ["amounts and weights of a case stay far below 2^62 / 2^31 (the mo
                "through the OutputGroup totals the C++ driver echoes",
                "std::sort on <= 16 elements is libstdc++'s (stable) insertion sort; larger pools of the cases have pairwise different amounts",
                "BnB / CoinGrinder optimality and completeness and all SRD / knapsack guarantees are checked per case "
-               "(translation validation), not proved for the C++ algorithms; the Gallina transcription of SelectCoinsBnB is proved "
-               "to return only valid selections and is compared output-for-output with the C++ (selection, waste, completed, tries)",
+               "(translation validation), not proved for the C++ algorithms; the Gallina transcriptions of SelectCoinsBnB and CoinGrinder "
+               "are proved to return only valid selections and are compared output-for-output with the C++ (selection, waste, completed, tries)",
                "BnB optimality is stated against non-redundant selections (no coin can be dropped while still reaching the target), "
                "which is what the search explores"]
 TRUSTED = ["Coq 8.16.1 kernel",
@@ -227,10 +227,10 @@ LEVEL_TEXT = ("Coq theorems: soundness of the executable selection checker (a re
               "no coin twice, none invented - with the stated value/effective value/weight, covers the algorithm's target bound, "
               "BnB inside [target, target+cost_of_change], weight <= max weight, waste equal to the RecalculateWaste formula); "
               "correctness of the brute-force reference (existence and minimum over all sub-lists) and of the optimality / "
-              "no-solution checks built on it; and, for a Gallina transcription of SelectCoinsBnB with fuel TOTAL_TRIES, that every "
-              "result it returns is a valid in-window, in-weight sub-multiset of the pool with best_waste equal to its waste. "
+              "no-solution checks built on it; and, for Gallina transcriptions of SelectCoinsBnB and CoinGrinder with fuel TOTAL_TRIES, that every "
+              "result they return is a valid (in-window resp. target+change) in-weight sub-multiset of the pool, best_waste equal to its waste. "
               "The C++ algorithms are tied by translation validation: every C++ result on the generated pools is judged by the "
-              "extracted checker, BnB is also compared output-for-output with the transcription.")
+              "extracted checker, BnB and CoinGrinder are also compared output-for-output with the transcriptions.")
 LEVEL_NOTE = ("Not proved about the C++: optimality/completeness of BnB and CoinGrinder (checked against the proved brute force on "
               "pools of <= 13 offered groups) and any property of SRD / knapsack beyond per-case validation. BnB's optimality clause "
               "is relative to non-redundant selections. Known deviation excluded from generation: with tied selection amounts and a "
